@@ -9,7 +9,7 @@ import json, os, re, subprocess, sys, time
 
 ORIG = os.path.dirname(os.path.dirname(os.path.abspath(__file__)))
 RELEVANT = re.compile(r"^\+\+\+ b/(include/urcu/static/|include/urcu/ref\.h|include/urcu/uatomic/api\.h|src/urcu\.c|src/urcu-qsbr\.c|"
-                      r"src/urcu-bp\.c|src/urcu-wait\.h|src/urcu-defer-impl\.h|src/urcu-call-rcu-impl\.h|src/workqueue\.c)", re.M)
+                      r"src/urcu-bp\.c|src/rculfhash\.c|src/urcu-poll-impl\.h|src/urcu-wait\.h|src/urcu-defer-impl\.h|src/urcu-call-rcu-impl\.h|src/workqueue\.c)", re.M)
 
 
 def sh(cmd, cwd=None, env=None, timeout=3600):
@@ -22,12 +22,20 @@ def sh(cmd, cwd=None, env=None, timeout=3600):
 def main():
     copy, scratch = sys.argv[1], sys.argv[2]
     flt = sys.argv[3] if len(sys.argv) > 3 else ""
+    prev = {}
+    if flt.endswith(".json"):
+        # re-run only the entries a previous matrix lists as "pass" (more refinement modules exist now); results are merged
+        prev = json.load(open(flt))
+        flt = ""
     mods = [m[:-5] for m in sorted(os.listdir(os.path.join(copy, "lean", "UrcuVerif", "Props"))) if m.startswith("Src") and m.endswith(".lean")]
     targets = " ".join("UrcuVerif.Props." + m for m in mods)
     out = {"modules": mods, "results": {}}
     names = sorted(d for d in os.listdir(os.path.join(ORIG, "seeded")) if os.path.exists(os.path.join(ORIG, "seeded", d, "patch.diff")))
     for d in names:
         if flt and flt not in d:
+            continue
+        if prev and d in prev.get("results", {}) and prev["results"][d].get("result") != "pass":
+            out["results"][d] = prev["results"][d]
             continue
         patch = os.path.join(ORIG, "seeded", d, "patch.diff")
         if not RELEVANT.search(open(patch).read()):
